@@ -33,6 +33,39 @@ func c04Matchers(c *Ctx, pkg string) {
 			n++
 			key := fmt.Sprintf("%s:match-return#%d", fk, n)
 			common, own, argsOK := false, false, false
+			extra := ""
+			checkPred := func(call *ssa.Call, subjOK func(v ssa.Value) bool) {
+				args := call.Common().Args
+				subj, pat := args[len(args)-1], args[0]
+				if s.pred != "MatchString" {
+					subj, pat = args[0], args[1]
+				}
+				_, f, _, okf := loadedField(pat)
+				own = true
+				argsOK = okf && f == s.field && subjOK(subj)
+			}
+			// every string/regexp predicate applied to the request path on the way to the verdict must be the rule's own
+			otherPreds := func(f *ssa.Function, isPath func(v ssa.Value) bool) {
+				forEachInstr(f, false, func(_ *ssa.Function, in ssa.Instruction) {
+					call, ok := in.(*ssa.Call)
+					if !ok {
+						return
+					}
+					name := calleeName(call.Common())
+					if !(strings.HasPrefix(name, "strings.") || strings.Contains(name, "regexp.")) {
+						return
+					}
+					touches := false
+					for _, a := range call.Common().Args {
+						if isPath(a) {
+							touches = true
+						}
+					}
+					if touches && methodName(call.Common()) != s.pred {
+						extra = methodName(call.Common())
+					}
+				})
+			}
 			for _, g := range guardsAt(rs.at.Block()) {
 				call, ok := g.Cond.(*ssa.Call)
 				if !ok || !g.True {
@@ -43,17 +76,39 @@ func c04Matchers(c *Ctx, pkg string) {
 					common = true
 				}
 				if name == s.pred {
-					own = true
-					args := call.Common().Args
-					// the request path (a variable.GetString result) must be the subject, the rule's field the pattern
-					subj, pat := args[len(args)-1], args[0]
-					if s.pred != "MatchString" {
-						subj, pat = args[0], args[1]
-					}
-					_, f, _, okf := loadedField(pat)
-					_, isEx := subj.(*ssa.Extract)
-					argsOK = okf && f == s.field && isEx && fromVarPath(subj)
+					checkPred(call, func(v ssa.Value) bool { _, isEx := v.(*ssa.Extract); return isEx && fromVarPath(v) })
 				}
+				// the predicate may live in a helper of the package that receives the request path
+				if h := call.Common().StaticCallee(); h != nil && h.Blocks != nil && h.Pkg == fn.Pkg && name != "matchRoute" {
+					var pathParam *ssa.Parameter
+					for i, a := range call.Common().Args {
+						if fromVarPath(a) && i < len(h.Params) {
+							pathParam = h.Params[i]
+						}
+					}
+					if pathParam == nil {
+						continue
+					}
+					for _, hrs := range returnSites(h, 0) {
+						if b, isC := constBool(hrs.val); isC && !b {
+							continue
+						}
+						// `return pred(...)` or `return true` behind pred
+						if pc, isCall := hrs.val.(*ssa.Call); isCall && methodName(pc.Common()) == s.pred {
+							checkPred(pc, func(v ssa.Value) bool { return v == ssa.Value(pathParam) })
+						}
+						for _, hg := range guardsAt(hrs.at.Block()) {
+							if pc, isCall := hg.Cond.(*ssa.Call); isCall && hg.True && methodName(pc.Common()) == s.pred {
+								checkPred(pc, func(v ssa.Value) bool { return v == ssa.Value(pathParam) })
+							}
+						}
+					}
+					otherPreds(h, func(v ssa.Value) bool { return v == ssa.Value(pathParam) })
+				}
+			}
+			otherPreds(fn, func(v ssa.Value) bool { return fromVarPath(v) })
+			if extra != "" {
+				c.Fail("C04.R7", key+":no-extra-path-condition", nearestPos(rs.at), fmt.Sprintf("%s.Match applies a further condition to the request path (%s) besides %s: a request whose path satisfies the configured rule can be rejected, so a later route (or none) is selected instead of the first matching one", s.typ, extra, s.pred))
 			}
 			c.Check("C04.R7", key, nearestPos(rs.at), common && own && argsOK, "selected only when matchRoute and "+s.pred+"(request path, "+s.field+") both hold", fmt.Sprintf("%s.Match can select the route without both matchRoute and %s(request path, configured %s) holding (common=%v own=%v args=%v)", s.typ, s.pred, s.field, common, own, argsOK))
 		}
